@@ -121,6 +121,26 @@ class Ctx(object):
         self._violation(label, None, info)
         return False
 
+    def impossible(self, names, formula, grid_n=6):
+        """Is ``formula`` unsatisfiable over all call shapes?  Symbolic mode: z3's verdict (unknown counts
+        as inconclusive and returns False); replay mode: no call of a grid (n <= grid_n, all keyword
+        subsets, with/without a foreign keyword) really satisfies it."""
+        if self.mode == 'replay':
+            import itertools
+            for n in range(grid_n + 1):
+                for r in range(len(names) + 1):
+                    for kws in itertools.combinations(names, r):
+                        for fo in (False, True):
+                            if formula.real((n, frozenset(kws), fo)):
+                                return False
+            return True
+        with sym.notrace():
+            verdict, call = self.solver.find(names, formula, None)
+            if verdict == 'unknown':
+                self.unknown_queries += 1
+                return False
+            return verdict == 'unsat'
+
     def satisfiable(self, names, formula, consts=None):
         """Auxiliary query (vacuity guards, raise conditions): is there a call with formula?
         -> True / False / None(unknown).  Replay mode: None (not needed to confirm a witness)."""
